@@ -55,6 +55,22 @@ CHECKS = {
    text="The real circuit_breaker.rs source file is compiled (build.rs) against shuttle's atomics and a simulated millisecond wall clock; each run is one shuttle execution (seeded random or PCT depth 2-4 scheduler, every atomic access a scheduling point) of 2-3 threads x 3-8 calls with the clock advanced or stepped backwards between calls. Oracle: no panic; from the recorded call intervals, no half-open episode admits more than half_open_max_calls (+ the transition-triggering request) for every linearisation; Closed->Open only when enough failures had started.",
    note="Sequentially consistent interleavings only (no weak-memory effects); verdicts are interval-conservative, so some real violations overlapping episode edges are not counted.",
    technique=TECH + ": shuttle-controlled thread schedules (seeded random + PCT) over the real breaker source with a simulated clock, interval-based history oracle", ref="§4 C26"),
+ "C07": dict(engine="clustersim", cat="exploration",
+   text="One real ClusterActor (configured replication factor 1..5) over a store populated with transactions carrying arbitrary confirmation counts; real ConfirmTransaction messages in PRNG order (raising counts, stale lower counts, duplicates), node restarts, and reads of every kind and parameter (ReadEvent, ReadPartition, ReadStream with PRNG start/end/count straddling the watermark, GetPartitionSequence, GetStreamVersion). Every answer is compared with the model's confirmed prefix: nothing at or beyond it may be revealed.",
+   note="Single node: forwarding of reads to other replicas is exercised in the C10/C11 cluster runs, not here. The oracle is soundness (nothing unconfirmed revealed); completeness of answers is counted as a probe only.",
+   technique=TECH + ": seeded interleavings of confirmation messages, restarts and reads against a real ClusterActor, checked against a reference model of the confirmed prefix", ref="§9.7"),
+ "C09": dict(engine="clustersim", cat="exploration",
+   text="The multi-node engine (1 or 3 real ClusterActors) with real client writes and confirmation traffic under message loss, delay, stragglers (late ConfirmTransaction leaves watermark holes), link cuts and isolation, and the simulator playing the subscriber: real Subscribe messages for partition, multi-partition, all-partition, stream and multi-stream matchers with any start position and window on any node, acknowledgements with PRNG lag through the watch channel. After every operation the update channels are drained and checked (cursors consecutive; per partition sequences / per stream versions consecutive from the start position: no gap, duplicate or reordering; only matching events; unacknowledged deliveries within the window); after faults stop and everything is acknowledged every delivered event lies inside the node's confirmed prefix and everything confirmed from the start position on has been delivered.",
+   note="The RESP layer (ESUB/EPSUB parsing, acknowledgement commands) is not in the loop: the simulator holds the update channel and the acknowledgement watch channel that the server connection would hold. The order across partitions/streams of one subscription is the code's own random choice and is not checked.",
+   technique=TECH + ": seeded interleavings of writes, confirmation traffic under network faults, subscriptions and acknowledgements over a cluster of real ClusterActors; delivery histories checked for order, gaps, duplicates, window and completeness", ref="§9.7"),
+ "C10": dict(engine="clustersim", cat="exploration",
+   text="N (2..5) real ClusterActors in one process, each on its own paused-clock tokio runtime (a crash drops the runtime), connected by a simulated network that carries the real serialised kameo messages (ExecuteTransaction forwards, ReplicateWrite, ConfirmTransaction, PartitionSyncRequest and their replies) with per-message fates from a content-keyed PRNG: delay, straggler delay up to 15 s, loss, duplication, unreachable peer; silent link cuts, isolated nodes, crashes and restarts with surviving disks; membership through the nodes' own heartbeat/ownership gossip over a simulated bus, so views diverge. After every operation and after faults stop (+32 s) every node's partition logs are read back: gapless, at most one transaction ever seen with a quorum confirmation count per (partition, sequence) across nodes and time, confirmed prefixes of any two nodes agree event for event.",
+   note="kameo's libp2p swarm is replaced at its command channel by a vendored kameo (sim/vendor/kameo, remote::sim); gossipsub propagation is a simulated bus. A lost message surfaces as NetworkTimeout after 10 s as in kameo's request-response defaults. The failsafe breaker inside the replicator reads the real monotonic clock.",
+   technique=TECH + ": seeded message fates (delay/loss/duplication/reordering), partitions, crash/restart and divergent membership over a cluster of real ClusterActors; agreement invariants over the recorded replica logs", ref="§9.7"),
+ "C11": dict(engine="clustersim", cat="exploration",
+   text="The same runs as C10. Oracle: every write acknowledged to its client sits whole at its acknowledged sequences on at least a quorum of nodes and carries a quorum confirmation count on its coordinator, at the check following the acknowledgement and at every later one (including after crashes, restarts and catch-up).",
+   note="as C10",
+   technique=TECH + ": same seeded cluster runs as C10; durability-on-quorum oracle over the recorded replica logs and client acknowledgements", ref="§9.7"),
  "C08": dict(engine="clustersim", cat="fault_enumeration",
    text="The real BucketConfirmationManager/PartitionConfirmationState with a real Database on a tokio runtime; the simulator owns the delivery order of confirmation reports (final counts, stale lower counts, duplicates, per-version reports that leave holes; the on-disk count is written before each report as ConfirmTransaction does) and the clock that drives time-based persistence. Live oracle after every report (monotone, <= prefix with a reported quorum count, = prefix at the end); crash enumeration: the confirmation directory is snapshotted through hook points at every step of every persist_bucket_state plus every 32-byte prefix of the temp file, and a fresh manager is initialised from each snapshot against the database.",
    note="The ConfirmationActor mailbox is bypassed (the manager is driven directly); crash states are directory snapshots taken by the harness, not kernel-level.",
